@@ -128,8 +128,8 @@ ASSUMPTIONS = [
     '(known finding compress_rename_failure_next_to_stale_cbin_orphans_header, Lean: rename_failure_next_to_stale_cbin_counterexample)',
     'sample selectors of the transparency claim: Python int >= -ns and slices with positive or absent step (list/array sample selectors raise '
     'NotImplementedError on .cbin; negative steps, ints < -ns and numpy-integer indices are the recorded findings)',
-    'readers are opened with the default open=True; reader objects left behind by an in-place decompress_file(keep_original=False) are not read from '
-    '(their mtscomp backend is closed) — transparency is checked through freshly opened readers',
+    'readers are opened with the default open=True; the reader object left behind by an in-place compress_file / decompress_file(keep_original=False) is '
+    're-opened (open()) and must show the same shape and values as a fresh Reader on the new file; it is not read from without re-opening (its backend is closed)',
 ]
 TRUSTED = [
     'the translator harness/pyfn2lean.py and the event patterns of harness/tiespecs/c02.py (which call statements are read as which event; '
@@ -652,6 +652,37 @@ def _suffix_name(p):
     return {'.bin': 'bin', '.cbin': 'cbin'}.get(s, s)
 
 
+def _reopen_same_object(sr):
+    """'' when sr.open() on the object left by an in-place call shows the same recording as a fresh Reader on sr.file_bin,
+    else a description (appended to the outcome, so that it disagrees with the model's plain 'ok')"""
+    import spikeglx
+    try:
+        fresh = spikeglx.Reader(sr.file_bin)
+    except Exception:     # the published file itself is judged elsewhere
+        return ''
+    try:
+        try:
+            sr.close()
+        except Exception:
+            pass
+        sr.open()
+        if tuple(sr.shape) != tuple(fresh.shape):
+            return f' reopen-differs: the same reader object re-opened has shape {tuple(sr.shape)}, a fresh Reader on {Path(sr.file_bin).name} has {tuple(fresh.shape)}'
+        n = fresh.shape[0]
+        for sl in (slice(0, min(n, 50)), slice(max(0, n - 50), n)):
+            a, b = sr[sl, :], fresh[sl, :]
+            if a.shape != b.shape or not np.array_equal(a, b):
+                return f' reopen-differs: the same reader object re-opened returns other values / shape {a.shape} for rows {sl.start}:{sl.stop} than a fresh Reader ({b.shape})'
+        return ''
+    except Exception as e:     # noqa
+        return f' reopen-differs: re-opening the same reader object raised {type(e).__name__}: {e}'[:200]
+    finally:
+        try:
+            fresh.close()
+        except Exception:
+            pass
+
+
 class Engine:
     """Executes the calls of one case on the real code."""
 
@@ -732,6 +763,10 @@ class Engine:
                 out = 'ok' if _same_file(ret, want) else f'ok(ret={Path(ret).name})'
         except Exception as e:   # noqa
             out = _err_name(e)
+        # "the current Reader object is modified in place": after a successful in-place call the SAME object, re-opened, must show
+        # the recording exactly as a fresh Reader on the new file does (shape and every value)
+        if out == 'ok' and kind in ('compress', 'decompress') and not op['keep'] and op.get('reopen', 1):
+            out += _reopen_same_object(sr)
         j = 'N' if (k is None or k >= n_src) else str((k // T) * T)
         # the model line: the call with its fault point (FsCompress.step), or — for an interruption between two effects, and for
         # every second fired chunk fault — the PREFIX of the effect list (FsCompressEffects.crash…: k primitive effects)
@@ -1605,6 +1640,9 @@ def oracle_fs(case):
             state['versions'].append(A['bin'])
             return
         op, ok = info['op'], info['outcome'].startswith('ok')
+        if ' reopen-differs:' in info['outcome']:
+            viol.append(f"{info['op']['op']}_file(keep_original=False) succeeded, but{info['outcome'].split(' reopen-differs:', 1)[1]} "
+                        '(the call modifies the current Reader object in place: re-opened, it must be indistinguishable from the new file)')
         kind = op['op']
         where = f"call #{info['i']} {kind}"
         if info['outcome'].startswith('ok('):
